@@ -213,6 +213,9 @@ def case_terms(c, r):
             for ch in range(len(c["data"][0])):
                 t = ev_term(D, c["derivative"], c["stride"], c["data"][b][ch], c["ms"], c["transpose"])
                 out.append(f"{CLOSE[D]} {tol} {t} {nest(r['val'][b][ch])}")
+                if D in (2, 3) and not c["transpose"] and all(m_ >= 1 for m_ in c["ms"]):
+                    out.append(f"{CLOSE[D]} tol (eval_mirtk{D} (K:=QcF) {' '.join(map(str, c['derivative']))} {' '.join(map(str, c['stride']))} "
+                               f"{nest(c['data'][b][ch])} {' '.join(map(str, c['ms']))}) {nest(r['val'][b][ch])}")
                 if D == 1 and not c["transpose"]:
                     out.append(f"vclose tol (eval_mirtk1 (K:=QcF) {c['derivative'][0]} {c['stride'][0]} {nest(c['data'][b][ch])} {c['ms'][0]}) "
                                f"{nest(r['val'][b][ch])}")
@@ -360,7 +363,8 @@ def explains(broken_item, found):
     known, _ = vlib.load_findings()  # a known finding never explains a newly broken obligation
     keys = " ".join(v.key for v in found if v.key not in known).lower()
     m = re.search(r"\.v:\d+ ([A-Za-z0-9_']+):", broken_item)
-    if not m:
+    if not m or "was not found in the current environment" in broken_item:
+        # (a missing generated definition is a consequence of a translator unit that failed closed)
         # translator unit / correspondence / build items name no lemma: any new concrete failing input explains them
         return any(v.key not in known for v in found)
     b = m.group(1).lower()
@@ -395,16 +399,18 @@ MANIFEST_ENTRY = {
             "cubic_bspline_value's pieces are that B, B', B''; partition of unity, derivative weights sum to 0, linear precision; the "
             "formal derivative of the order-d weights is the order-(d+1) weights (and the real derivative, over R); affine coefficients "
             "are reproduced at every sample for all image sizes and strides in D = 1, 2, 3 with derivative modes returning the slope; "
-            "grouped-convolution + reshuffle structure equals the tensor-product closed form (1-D, all sizes); the transposed-"
+            "every derivative order evaluates the tensor product of analytic basis derivatives; grouped-convolution + reshuffle passes "
+            "equal the tensor-product closed form (1-D, 2-D and 3-D, all sizes); the transposed-"
             "convolution algorithm equals the default one (D = 1, 2, 3, all sizes / strides); the control grid covers every sample "
             "and is minimal (all m, s >= 1) and control point k lies at image index (k-1)*stride (origin / spacing traced from "
             "cubic_bspline_control_point_grid); the subdivision stencils satisfy the two-scale relation and subdivision / FFD grid "
-            "refinement preserves the spline (1-D all lengths, repeated refinement by induction; D = 2, 3 along any axis). Tie: Gen/BSpline.v is regenerated "
+            "refinement preserves the spline (direct subdivision: every cell, both halves, D = 1, 2, 3 along any axis; refinement: 1-D all lengths, repeated refinement by induction, D = 2, 3 along any axis). Tie: Gen/BSpline.v is regenerated "
             "from bspline.py / kernels.py by symbolic tracing on every run (weights, B pieces, stencils, size formula; the index glue of "
-            "evaluate_cubic_bspline is checked symbolically against the closed form on small sizes), and the executable model is "
+            "evaluate_cubic_bspline -- both algorithms, the transposed one through core.image.conv / F.conv_transpose1d with symbolic "
+            "kernels -- is checked symbolically against the closed forms on small sizes), and the executable model is "
             "compared inside Coq with the implementation on generated inputs.",
-    "note": "Partial: repeated refinement and the direct-subdivision statement are 1-D, single-axis refinement is proved for D = 2, 3 "
-            "(C14_refine_preserves_2d/3d; several axes = composition, checked symbolically by the translator and numerically); the N-D default algorithm's separable passes are tied to the closed form by the translator's "
-            "symbolic check + correspondence, not by a Coq proof; torch.arange(0,1,1/s) float behaviour (breaks at stride 49, outside the "
+    "note": "Partial: repeated refinement is 1-D; refinement / subdivision along several axes at once is the composition of the proved "
+            "single-axis statements (checked symbolically by the translator and numerically); the transposed algorithm's scatter form (F.conv_transpose1d) is modelled in gather form "
+            "(tied by the translator's symbolic trace + correspondence); torch.arange(0,1,1/s) float behaviour (breaks at stride 49, outside the "
             "property's range) and float32 rounding are outside the model. Repaired in /repo (98fa26a, 0a33d67, c621c1b): control point grid spacing, 1-D subdivide, bspline-mode keys -- now covered by C14_control_point_placement, the 1-D subdivision correspondence and unsorted keys in the sderiv cases.",
 }
